@@ -23,7 +23,39 @@ TEXTBOOK = {
     "reduce-reduce": 'grammar g; start = a "x" | b "x"; a = "c"; b = "c";',
     "rule-handle": 'grammar g; @left <e = e e>; @left "|"; start = e; e = e e | e "|" e | "a";',
     "unary-binary": 'grammar g; @left "*"; @left "-"; start = e; e = e "-" e | e "*" e | "-" e | "n";',
+    "unary-rule-handle": 'grammar g; @left "*"; @right <e = "-" e>; start = e; e = e "-" e | e "*" e | "-" e | "n";',
+    "unary-rule-handle-resolved": 'grammar g; @right <e = "-" e>; @left "*"; @left "-"; start = e; e = e "-" e | e "*" e | "-" e | "n";',
+    "binary-rule-handle": 'grammar g; @left <e = e "+" e>; start = e; e = e "+" e | "n";',
 }
+
+
+def directives_as_written(text):
+    """The precedence levels the directives of a (generated, operator-free) specification text denote:
+    [(assoc, terminals, productions[(head, body)])] in source order."""
+    import re
+    levels = []
+    for m in re.finditer(r'@(left|right|none)((?:\s+(?:"(?:[^"\\\\]|\\\\.)*"|[A-Z][A-Z0-9_]*|<[^>]*>))+)', text):
+        assoc = {"left": "LEFT", "right": "RIGHT", "none": "NONE"}[m.group(1)]
+        terms, prods = [], []
+        for h in re.finditer(r'"((?:[^"\\\\]|\\\\.)*)"|([A-Z][A-Z0-9_]*)|<\s*([a-z][a-z0-9_]*)\s*=([^>]*)>', m.group(2)):
+            if h.group(1) is not None:
+                terms.append(h.group(1))
+            elif h.group(2) is not None:
+                terms.append(h.group(2))
+            else:
+                body = []
+                for b in re.finditer(r'"((?:[^"\\\\]|\\\\.)*)"|([A-Z][A-Z0-9_]*)|([a-z][a-z0-9_]*)|(\S)', h.group(4)):
+                    if b.group(1) is not None:
+                        body.append(["t", b.group(1)])
+                    elif b.group(2) is not None:
+                        body.append(["t", b.group(2)])
+                    elif b.group(3) is not None:
+                        body.append(["n", b.group(3)])
+                    else:
+                        return None          # extended operators inside a rule handle: not read here (C12 covers them)
+                prods.append({"head": h.group(3), "body": body})
+        levels.append((assoc, sorted(set(terms)), sorted(json.dumps(p, sort_keys=True) for p in prods)))
+    return levels
 
 
 def gen_grammar(rng):
@@ -324,6 +356,13 @@ def check(tier):
             dist["spec_error"] += 1
             continue
         sp, tb = r["spec"], r["table"]
+        written = directives_as_written(text)
+        if written is not None:
+            recorded = [(lv["assoc"], sorted(set(lv["terms"])), sorted(json.dumps(p, sort_keys=True) for p in lv["prods"]))
+                        for lv in sp["precedences"]]
+            if recorded != written:
+                problems.append((name, text, "the precedence levels handed to the table builder are not the directives as written: "
+                                             "recorded %r, written %r" % (recorded, written)))
         rejected = "table_error" in r
         if rejected != bool(tb["conflicts"]):
             problems.append((name, text, "verdict and conflict list disagree: error=%s conflicts=%d" % (rejected, len(tb["conflicts"]))))
